@@ -16,6 +16,7 @@ fn main() {
             "non-repeating pseudo-random file ids; a virtual clock under harness control",
         ],
         |s| {
+            s.require("directory-over-limit-at-start/reuse-finds-a-current-file", 50);
             s.require("size-roll", 5000);
             s.require("time-roll", 5000);
             s.require("max_files=1", 5000);
